@@ -373,7 +373,9 @@ def sib_drivers(repo, tier="quick"):
         cl = is_call(t, "list")
         want1 = ("tuple", (("sub", last, ("const", 0)), ("sub", last, ("const", 1))))
         last2 = ("sub", ("call", None, ("builtin", "list"), (I,), ()), ("const", -1))
-        if t not in (want1, last) and strip_sites(t) not in (strip_sites(last2),):
+        lasts = [strip_sites(last), strip_sites(last2), strip_sites(("sub", ("call", None, ("builtin", "tuple"), (I,), ()), ("const", -1)))]
+        accepted = list(lasts) + [("tuple", (("sub", l_, ("const", 0)), ("sub", l_, ("const", 1)))) for l_ in lasts]
+        if t not in (want1, last) and strip_sites(t) not in accepted:
             okr = False
     (obs.append(ob_ok(oid, fi, rets[0].ast if rets else None, construct="return last item of self.resolve_iter()", instance="all", reason="asking for the last level directly runs the same steps")) if okr else
      obs.append(ob_fail(oid, fi, rets[0].ast if rets else None, construct="return", instance="all", reason="resolve_all does not return the last item produced by resolve_iter()")))
